@@ -421,7 +421,7 @@ pub fn gen_alphabet(rng: &mut Rng) -> Vec<&'static str> {
     a
 }
 
-fn gen_word(rng: &mut Rng, alpha: &[&str], maxlen: usize) -> String {
+pub fn gen_word(rng: &mut Rng, alpha: &[&str], maxlen: usize) -> String {
     let n = rng.range(1, maxlen);
     // a narrow sub-alphabet in a third of the words: aa, aaa, abab ...
     let narrow = rng.chance(1, 3);
